@@ -497,12 +497,13 @@ func (db *RedisPermanent) mergeSuffrageProofsByBlockHeightTempDatabaseFromLeveld
 				NX:      true,
 				Members: []redis.Z{{Score: 0, Member: redisSuffrageProofByBlockHeightKey(height)}},
 			}
-			if err := db.st.ZAddArgs(ctx, redisZKeySuffrageProofsByBlockHeight, z); err != nil {
-				return false, errors.Wrap(err, "zadd suffrageproof by suffrage proof by block height")
-			}
-
+			// NOTE value first; index member without it's value hides last one
 			if err := db.st.Set(ctx, redisSuffrageProofByBlockHeightKey(height), b); err != nil {
 				return false, errors.Wrap(err, "set SuffrageProof by block height")
+			}
+
+			if err := db.st.ZAddArgs(ctx, redisZKeySuffrageProofsByBlockHeight, z); err != nil {
+				return false, errors.Wrap(err, "zadd suffrageproof by suffrage proof by block height")
 			}
 
 			return true, nil
@@ -531,12 +532,13 @@ func (db *RedisPermanent) mergeBlockMapTempDatabaseFromLeveldb(
 				Members: []redis.Z{{Score: 0, Member: key}},
 			}
 
-			if err := db.st.ZAddArgs(ctx, redisZKeyBlockMaps, z); err != nil {
-				return false, errors.Wrap(err, "zadd blockmap by block height")
-			}
-
+			// NOTE value first; index member without it's value hides last one
 			if err := db.st.Set(ctx, key, b); err != nil {
 				return false, errors.Wrap(err, "set blockmap")
+			}
+
+			if err := db.st.ZAddArgs(ctx, redisZKeyBlockMaps, z); err != nil {
+				return false, errors.Wrap(err, "zadd blockmap by block height")
 			}
 
 			return true, nil
